@@ -97,11 +97,7 @@ func FuzzFrames(f *testing.F) {
 			if len(logicals) < len(want) {
 				return
 			}
-			end := len(wire)
-			if len(logicals) > len(want) {
-				end = logicals[len(want)].Off
-			}
-			valid := wire[:end]
+			valid := wire[:logicals[len(want)-1].End]
 			for _, l := range logicals[:len(want)] {
 				if l.Type == 5 {
 					return // PUSH_PROMISE: MOSN announces ENABLE_PUSH=0 and never pushes, no valid peer sends it
